@@ -500,7 +500,47 @@ def persistence_scenarios(run: Run, model: PyModel, rid: str, order=None) -> Non
                 st.trace.append(("write", args[0] if args else None))
             return [(None if name in ("write", "close", "__exit__") else recv, st)]
 
-        return {"method:path:NEXTIDS": path_method, "method:ext:json": json_method, "method:vday": date_method, "method:handle": handle_method}
+        import datetime as _dt
+
+        def ext_method(I2, recv, name, args, kwargs, st, node):
+            # library facts about dates, on constants only: strptime of a digit string, timedelta(days=n)
+            if recv.cls.startswith("ext:datetime") and name == "strptime" and len(args) == 2 and all(isinstance(a, str) for a in args):
+                try:
+                    d = _dt.datetime.strptime(args[0], args[1]).date()
+                except ValueError:
+                    return [(Raised("ValueError", node, "strptime"), st)]
+                return [(Opaque("vday", d.strftime("%Y%m%d")), st)]
+            if recv.cls == "vday" and name == "date":
+                return [(recv, st)]
+            if recv.cls.startswith("ext:datetime") and name == "timedelta":
+                return call_any(I2, Opaque(recv.cls + ".timedelta"), args, kwargs, st, node)
+            return None
+
+        def call_any(I2, fv, args, kwargs, st, node):
+            if fv.cls.endswith("timedelta") and not args and set(kwargs) <= {"days", "weeks"} and all(isinstance(x, int) for x in kwargs.values()):
+                return [(Opaque("vdelta", str(kwargs.get("days", 0) + 7 * kwargs.get("weeks", 0))), st)]
+            return None
+
+        def binop(I2, op, l, r, st):
+            if isinstance(op, ast.Sub) and isinstance(l, Opaque) and isinstance(r, Opaque) and l.cls == r.cls == "vday":
+                a, b = (_dt.datetime.strptime(x.tag, "%Y%m%d").date() for x in (l, r))
+                return Opaque("vdelta", str((a - b).days))
+            return None
+
+        def compare(I2, op, l, r, st):
+            if isinstance(l, Opaque) and isinstance(r, Opaque) and l.cls == r.cls and l.cls in ("vdelta", "vday"):
+                import operator as _op
+
+                fn = {ast.Lt: _op.lt, ast.LtE: _op.le, ast.Gt: _op.gt, ast.GtE: _op.ge, ast.Eq: _op.eq, ast.NotEq: _op.ne}.get(type(op))
+                if fn is not None:
+                    return fn(int(l.tag), int(r.tag))
+            return None
+
+        def date_or_ext(I2, recv, name, args, kwargs, st, node):
+            return date_method(I2, recv, name, args, kwargs, st, node) or ext_method(I2, recv, name, args, kwargs, st, node)
+
+        return {"method:path:NEXTIDS": path_method, "method:ext:json": json_method, "method:vday": date_or_ext, "method:handle": handle_method, "method:*": ext_method, "call:*": call_any,
+                "binop": binop, "compare": compare}
 
     fi_get = model.func(F_GET)
     n = 0
